@@ -22,6 +22,7 @@ one mutants/revert-fix-fbb24e8.patch C03
 one mutants/revert-fix-45889c1.patch C08
 one mutants/revert-fix-1312403.patch C08
 one mutants/revert-fix-819a78c.patch C18
+one mutants/revert-fix-5c51e9f.patch C14
 for p in sim/circuitsim/mutants/*.patch; do one $p C07; done
 for p in sim/ntfnsim/mutants/*.patch; do one $p C14; done
 for p in sim/invsim/mutants/*.patch; do one $p C15; done
